@@ -10,6 +10,8 @@ import ChibiVerif.Gen.LiteralsGen
 import ChibiVerif.Spec.LiteralsSpec
 import ChibiVerif.Model.Literals
 
+set_option linter.unusedSimpArgs false
+
 namespace ChibiVerif.Lemmas.Literals
 open ChibiVerif.Gen.Literals
 open ChibiVerif.Spec.Literals
